@@ -10,7 +10,15 @@
      LWrite k v      Set / SetIfAbsent(absent) / Compute(write): one Compute that removes the key's call
                      from the calls table (singleflight.delete) and installs v;
      LInvalidate k   Invalidate / Compute(invalidate) / eviction / expiration sweep of k: one Compute that
-                     removes the key's call and the entry.
+                     removes the key's call and the entry;
+     LVolunteer k v  a bulk loader's result contains k although its caller had not asked for it (it was
+                     present, or joined from another caller): one Compute that installs v and leaves the
+                     calls table alone.
+
+   A bulk call (BulkGet / BulkRefresh) is a run of LStart events, one per missing key (each a separate
+   get-or-create), one loader invocation outside any lock, then one LFinish per call it registered and one
+   LVolunteer per extra key — interleaved freely with everybody else's events: the theorems, which quantify
+   over all event lists, cover bulk calls over overlapping key sets.
 
    Values only (deadlines are Seq.v's business).  Ghost state records, per call, the loader
    interval and whether an explicit write superseded it.  No proofs here (LoadProofs.v). *)
@@ -51,7 +59,10 @@ Inductive levent :=
 | LStart (t k : Z) (refresh : bool)
 | LFinish (id : Z) (oc : loutcome)
 | LWrite (k v : Z)
-| LInvalidate (k : Z).
+| LInvalidate (k : Z)
+| LVolunteer (k v : Z).   (* a bulk loader returned a value for a key its caller had not asked it for:
+                             afterDeleteCall on a "fake" call: the value is installed; a registered call
+                             of that key (another caller's load in flight) is NOT removed *)
 
 (* observable result of a step *)
 Inductive lobs :=
@@ -108,6 +119,8 @@ Definition lstep (s : lstate) (e : levent) : lstate * lobs :=
   | LInvalidate k =>
       let s1 := supersede s k in
       (mkL (aremove k (lmap s1)) (ltable s1) (lcalls s1) (lnext s1) (lwaits s1), ObsNone)
+  | LVolunteer k v =>
+      (mkL (aput k v (lmap s)) (ltable s) (lcalls s) (lnext s) (lwaits s), ObsNone)
   end.
 
 Fixpoint lrun (s : lstate) (es : list levent) : lstate * list lobs :=
